@@ -313,7 +313,12 @@ func genC16(g *G) {
 	for n := 1; n <= maxLen; n++ {
 		c16enum(c16alpha, n, func(b []byte) {
 			if idx%nsh == sh {
-				add(b)
+				if n <= 4 {
+					// one input per case: a failure here is reported as a minimal input
+					g.Case([]string{"reset", "split " + c15hex(b)})
+				} else {
+					add(b)
+				}
 			}
 			idx++
 		})
@@ -789,17 +794,22 @@ func genC15(g *G) {
 	add("join")
 	add("join .")
 	add("join . .")
-	for c := 0; c < 256; c++ {
-		add("quote " + c15hex([]byte{byte(c)}))
-	}
 	flush()
+	for c := 0; c < 256; c++ {
+		// one input per case: a failure here is reported as a minimal input
+		g.Case([]string{"reset", "quote " + c15hex([]byte{byte(c)})})
+	}
 	// all strings over the 16-symbol alphabet
 	maxLen := g.Scale(3, 4)
 	idx := 0
 	for n := 2; n <= maxLen; n++ {
 		c16enum(c15alpha, n, func(b []byte) {
 			if idx%nsh == sh {
-				add("quote " + c15hex(b))
+				if n == 2 {
+					g.Case([]string{"reset", "quote " + c15hex(b)})
+				} else {
+					add("quote " + c15hex(b))
+				}
 			}
 			idx++
 		})
@@ -820,7 +830,7 @@ func genC15(g *G) {
 	}
 	flush()
 	// random strings and lists
-	for i := 0; i < g.Scale(1500, 30000); i++ {
+	for i := 0; i < g.Scale(6000, 60000); i++ {
 		if g.Chance(1, 3) {
 			add("quote " + c15hex(c15randString(g, 12, true)))
 			continue
